@@ -280,3 +280,169 @@ def check_partition_relations(world, rec):
                 world.violation("C15/concrete", "imposed-relation-fails-on-real-coordinate-projections",
                                 {"B": Bn, "d": d, "value": worst})
     world.reach["partition_relations_checked"] += 1
+
+
+# --------------------------------------------------------------------------------------------------
+# C04
+# --------------------------------------------------------------------------------------------------
+def check_pattern(world, rec):
+    """Every table cell (i, j) holds a condition iff samples i and j are different samples (by identity)."""
+    from PEPit.constraint import Constraint
+    for c in rec.table_calls:
+        F = c["f"]
+        tab = F.tables_of_constraints.get(c["name"])
+        l1, l2 = c["l1"], c["l2"]
+        if tab is None:
+            if l1 and (l2 is None or l2):
+                world.violation("C04/pattern", "no-table-for-condition", {"condition": c["name"]})
+            continue
+        vals = tab.values
+        if l2 is None:
+            if vals.shape != (1, len(l1)):
+                world.violation("C04/pattern", "table-shape", {"condition": c["name"]})
+                continue
+            for i in range(len(l1)):
+                if not isinstance(vals[0, i], Constraint):
+                    world.violation("C04/pattern", "sample-without-its-condition", {"condition": c["name"], "i": i})
+                    break
+            continue
+        if vals.shape != (len(l1), len(l2)):
+            world.violation("C04/pattern", "table-shape", {"condition": c["name"]})
+            continue
+        same_lists = len(l1) == len(l2) and all(a is b for a, b in zip(l1, l2))
+        bad = None
+        for i, ti in enumerate(l1):
+            for j, tj in enumerate(l2):
+                has = isinstance(vals[i, j], Constraint)
+                if ti is tj:
+                    if has:
+                        bad = ("condition-between-a-sample-and-itself", i, j)
+                    continue
+                if c["symmetry"] and same_lists:
+                    mirror = isinstance(vals[j, i], Constraint)
+                    if has == mirror:
+                        bad = ("symmetric-condition-not-exactly-once-per-unordered-pair", i, j)
+                elif not has:
+                    bad = ("pair-of-distinct-samples-without-its-condition", i, j)
+                if bad:
+                    break
+            if bad:
+                break
+        if bad:
+            world.violation("C04/pattern", bad[0], {"condition": c["name"], "cell": [bad[1], bad[2]],
+                                                    "class": type(F).__name__})
+        world.reach["pattern_tables"] += 1
+
+
+def class_descriptor(world, rec):
+    """Canonical description of the class rows / LMIs generated for this solve, over order-independent leaf labels."""
+    from PEPit.expression import Expression
+    from PEPit.point import Point
+    labels = {}     # id(leaf) -> label
+    # 1. leaves named by the session's handles
+    for name, obj in world.allobj.items():
+        if isinstance(obj, (Point, Expression)) and obj.get_is_leaf():
+            labels.setdefault(id(obj), name)
+
+    def canon_point(p):
+        items = []
+        for q, w in p.decomposition_dict.items():
+            if w == 0:
+                continue
+            if id(q) not in labels:
+                return None
+            items.append((labels[id(q)], round(float(w), 9)))
+        return tuple(sorted(items))
+
+    funcs = [(n, world.allobj[n]) for n in (rec.ledger_snapshot or {}).get("funcs", [])]
+    parts = [(n, world.allobj[n]) for n in (rec.ledger_snapshot or {}).get("parts", [])]
+    changed = True
+    rounds = 0
+    while changed and rounds < 20:
+        changed = False
+        rounds += 1
+        for n, F in funcs:
+            seen = {}
+            for (x, g, v) in F.list_of_points:
+                cx = canon_point(x)
+                if cx is None:
+                    continue
+                k = seen.get(cx, 0)
+                seen[cx] = k + 1
+                if g.get_is_leaf() and id(g) not in labels:
+                    labels[id(g)] = "g<%s|%s|%d>" % (n, cx, k)
+                    changed = True
+                if v.get_is_leaf() and id(v) not in labels:
+                    labels[id(v)] = "v<%s|%s|%d>" % (n, cx, k)
+                    changed = True
+            # a stationary point created by the class itself
+            for t, (x, g, v) in enumerate(F.list_of_stationary_points):
+                if x.get_is_leaf() and id(x) not in labels:
+                    labels[id(x)] = "xs<%s|%d>" % (n, t)
+                    changed = True
+        for n, B in parts:
+            for x, blocks in B.blocks_dict.items():
+                cx = canon_point(x)
+                if cx is None:
+                    continue
+                for k, bk in enumerate(blocks[:-1]):
+                    if bk.get_is_leaf() and id(bk) not in labels:
+                        labels[id(bk)] = "blk<%s|%s|%d>" % (n, cx, k)
+                        changed = True
+    unl = [0]
+
+    def canon_expr(e):
+        items = {}
+        if e.get_is_leaf():
+            if id(e) not in labels:
+                unl[0] += 1
+                return None
+            return ((("F", labels[id(e)]), 1.0),)
+        for k, w in e.decomposition_dict.items():
+            if isinstance(k, Expression):
+                if id(k) not in labels:
+                    unl[0] += 1
+                    return None
+                key = ("F", labels[id(k)])
+            elif isinstance(k, tuple):
+                if id(k[0]) not in labels or id(k[1]) not in labels:
+                    unl[0] += 1
+                    return None
+                key = ("G",) + tuple(sorted((labels[id(k[0])], labels[id(k[1])])))
+            else:
+                key = ("1",)
+            items[key] = items.get(key, 0.0) + float(w)
+        return tuple(sorted((k, float("%.9g" % v)) for k, v in items.items() if abs(v) > 1e-13))
+
+    rows, lmis = [], []
+    for r in rec.created:
+        if r["origin"] in ("class", "partition") and r["kind"] == "cons":
+            ce = canon_expr(r["obj"].expression)
+            if ce is None:
+                continue
+            sense = "eq" if r["obj"].equality_or_inequality == "equality" else "le"
+            if sense == "eq" and ce and ce[0][1] < 0:
+                ce = tuple((k, -v) for k, v in ce)
+            if not ce:
+                continue   # 0 <= 0
+            rows.append(repr((sense, ce)))
+        elif r["origin"] == "class" and r["kind"] == "psd":
+            M = r["obj"]
+            d = M.shape[0]
+            diag, off = [], []
+            ok = True
+            for i in range(d):
+                for j in range(i, d):
+                    a = canon_expr(M[i, j])
+                    b = canon_expr(M[j, i])
+                    if a is None or b is None:
+                        ok = False
+                        continue
+                    if i == j:
+                        diag.append(repr(a))
+                    else:
+                        off.append(repr(tuple(sorted([repr(a), repr(b)]))))
+            if ok:
+                lmis.append(repr((d, sorted(diag), sorted(off))))
+    world.obs["descriptor"] = {"rows": sorted(rows), "lmis": sorted(lmis), "unlabelled": unl[0]}
+    world.reach["descriptor_rows"] += len(rows)
